@@ -422,6 +422,8 @@ def finish(out: Outcome, props: dict, t0: float, level_note=""):
         log("KNOWN-FINDING: property=%s %s [%s; %d failing case(s) this run]" % (pid, k["what"], hid, n))
     code = 0
     os.makedirs(REPLAYS, exist_ok=True)
+    for old in glob.glob(os.path.join(REPLAYS, pid + "_*.json")):
+        os.remove(old)
     if not props.get("ok", False):
         code = 1
         rp = os.path.join(REPLAYS, "%s_proof.json" % pid)
